@@ -2125,8 +2125,24 @@ func ruleC12DiagSource(c *Checker) {
 		c.check(nT > 0, R, p.FuncName(fn), "can answer true", p.Pos(fn.Pos()), fmt.Sprintf("%d return(s) of true", nT), "HasErrors never answers true: no failure ever disables the builder")
 	}
 	// (b)
-	if fn := p.Fn(bundlePkg, "Diagnostics.inRemoteSourcePackage"); fn == nil {
-		c.anchorMissing(R, "Diagnostics.inRemoteSourcePackage")
+	// the wrapping method, by role: the method of Diagnostics that makes diagnosticInSourcePackage values
+	var wrapFn *ssa.Function
+	for _, f := range p.Funcs {
+		if !inBundlePkg(p, f) || f.Signature.Recv() == nil || !isNamedT(derefType(f.Signature.Recv().Type()), "Diagnostics") {
+			continue
+		}
+		makes := false
+		eachInstr(f, func(in ssa.Instruction) {
+			if mi, ok := in.(*ssa.MakeInterface); ok && isNamedT(mi.X.Type(), "diagnosticInSourcePackage") {
+				makes = true
+			}
+		})
+		if makes && (wrapFn == nil || f.Pos() < wrapFn.Pos()) {
+			wrapFn = f
+		}
+	}
+	if fn := wrapFn; fn == nil {
+		c.anchorMissing(R, "the method of Diagnostics that wraps diagnostics for a source package")
 	} else if len(fn.Params) > 0 {
 		recv := fn.Params[0]
 		empties := lenZeroEdges(fn, func(v ssa.Value) bool { return v == ssa.Value(recv) })
